@@ -94,7 +94,11 @@ Inductive fault :=
       (* recursion of the given depth through a list method that runs the closure on a fresh storage
          (funcGen.NewEmptyStack in Map/Accept/multiUse): the guard never sees more than one level *)
 | FRecThrough (m : str) (slots frames depth : N)
-| FRecMixed (m : str) (between slots frames depth : N).
+| FRecMixed (m : str) (between slots frames depth : N)
+| FDeepData (n frame : N).
+      (* no recursion in the program: an ordinary loop of many steps built a data structure (replace / stage
+         chain, nested lists or maps) whose observer (get, size, string, =, iteration) recurses n levels in Go,
+         [frame] Go calls each.  Chains the code flattens (Map.Replace at depth 10) have n <= 10. *)
       (* recursion of the given depth in which [between] directly recursive levels lie between two hops
          through method m: if m forgets the depth of its callers the guard only ever counts one segment *)
       (* recursion of the given depth whose recursive call sits in the closure handed to method m (as
@@ -121,6 +125,7 @@ Definition fault_raw (S : sites) (D : N) (f : fault) : raw :=
       else if slots =? 0 then unguarded
       else if depth <=? (guard_limit + 1) / slots then unguarded      (* ends before the guard can fire *)
       else rec_shared_raw D 0 slots frames
+  | FDeepData n frame => if D <? n * frame then RFatal else RVal
   | FRecMixed m between slots frames depth =>
       let unguarded := if D <? frames * depth then RFatal else RVal in
       if slots =? 0 then unguarded
